@@ -260,9 +260,6 @@ Lemma existsb_firstn_app {A : Type} (f : A -> bool) k a b :
   existsb f (firstn k (a ++ b)) = existsb f (firstn k a) || existsb f (firstn (k - length a) b).
 Proof. now rewrite firstn_app, existsb_app. Qed.
 
-Definition pre_len (c : cfg) (r : run) (st0 : pstate) : nat :=
-  length (start_actions c r ++ cmd_actions c r st0 ++ finish_actions c).
-
 Lemma no_log_in_prefix c r st0 i k : (k <= pre_len c r st0 + i)%nat ->
   existsb (is_log i) (firstn k (run_actions c r st0)) = false.
 Proof.
@@ -298,20 +295,21 @@ Proof. induction after as [|a after IH]; intros i; [reflexivity|]. cbn [log_appe
 Lemma deps_appends_length d : forall after i, length (deps_appends i after d) = length after.
 Proof. induction after as [|a after IH]; intros i; [reflexivity|]. cbn [deps_appends length]. now rewrite IH. Qed.
 
-Lemma logs_done_len_eq c r st0 : logs_done_len c r st0 = (pre_len c r st0 + length (p_outs st0))%nat.
+Lemma commit_len_eq c r st0 : commit_len c r st0 = (pre_len c r st0 + length (p_outs st0))%nat.
 Proof.
-  unfold logs_done_len, pre_len, log_actions. rewrite !app_length, log_appends_length, written_length. lia.
+  unfold commit_len, run_actions, pre_len, log_actions.
+  rewrite !app_length, log_appends_length, written_length. lia.
 Qed.
 
 (* all entries stale (never built / an input edited since the last record / command changed):
-   dirty until the LAST log line is on disk *)
+   dirty until the LAST log line -- the last action of the run -- is on disk: EVERY strict prefix *)
 Theorem prefix_redone_all : forall c r ins st0 k torn,
   p_outs st0 <> [] ->
   forallb (log_stale c (mri_of (i_explicit ins) None)) (p_outs st0) = true ->
-  (k < logs_done_len c r st0)%nat ->
+  (k < commit_len c r st0)%nat ->
   next_run_dirty c ins (apply_all st0 (crash (run_actions c r st0) k torn)) = true.
 Proof.
-  intros c r ins st0 k torn Hne Hall Hk. rewrite logs_done_len_eq in Hk.
+  intros c r ins st0 k torn Hne Hall Hk. rewrite commit_len_eq in Hk.
   set (i := (k - pre_len c r st0)%nat).
   assert (Hi : (i < length (p_outs st0))%nat).
   { unfold i. destruct (p_outs st0); [congruence|]. cbn [length] in *. lia. }
@@ -672,7 +670,7 @@ Example edit_during_run_restat_generator_exception :
      (apply_all st0 (run_actions (mkCfg 77 false false DNone false) r st0)) = true.
 Proof. vm_compute. repeat split; reflexivity. Qed.
 
-(* ================================================================== between the log lines and the deps record *)
+(* ================================================================== deps records before log lines *)
 Lemma map_upd_nth_same {A B : Type} (g : A -> B) (f : A -> A) (Hg : forall x, g (f x) = g x) :
   forall l i, map g (upd_nth i f l) = map g l.
 Proof.
@@ -695,65 +693,62 @@ Lemma firstn_app_ge {A : Type} (a b : list A) k : (length a <= k)%nat ->
   firstn k (a ++ b) = a ++ firstn (k - length a) b.
 Proof. intros H. rewrite firstn_app. now rewrite firstn_all2 by assumption. Qed.
 
-Definition deps_stale_after (c : cfg) (r : run) (st0 : pstate) : Prop :=
-  match p_dlog st0, after_cmd c r st0 with
-  | Some (dm, _), a :: _ => dm < stat a
-  | _, _ => True
-  end.
-
-(* the command is done, all or some log lines are written, the deps record of outputs_[0] is not:
-   the old deps record (if any) is older than the rewritten output and is rejected *)
-Theorem prefix_redone_deps : forall c r ins st0 k torn,
-  uses_depslog c = true -> p_outs st0 <> [] ->
-  (cmd_done_len c r st0 <= k <= logs_done_len c r st0)%nat ->
-  deps_stale_after c r st0 ->
-  next_run_dirty c ins (apply_all st0 (crash (run_actions c r st0) k torn)) = true.
+(* From the first build-log line on (crash point >= pre_len) everything else this run persists is
+   already final: the deps record, the depfile (removed for deps=gcc), the output files. *)
+Theorem deps_before_log_commit : forall c r st0 k torn, (pre_len c r st0 <= k)%nat ->
+  let st := apply_all st0 (crash (run_actions c r st0) k torn) in
+  let fin := apply_all st0 (run_actions c r st0) in
+  p_dlog st = p_dlog fin /\ p_depfile st = p_depfile fin
+  /\ map o_file (p_outs st) = map o_file (p_outs fin).
 Proof.
-  intros c r ins st0 k torn Hu Hne [Hk1 Hk2] Hst. rewrite crash_state.
-  unfold cmd_done_len in Hk1. unfold logs_done_len in Hk2.
-  set (AB := start_actions c r ++ cmd_actions c r st0) in *.
-  set (R := finish_actions c ++ log_actions c r st0 ++ deps_actions c r st0).
-  assert (Erun : run_actions c r st0 = AB ++ R)
-    by (unfold run_actions, AB, R; now rewrite <- app_assoc).
+  intros c r st0 k torn Hk. cbv zeta. rewrite crash_state. unfold pre_len in Hk.
+  set (Pre := start_actions c r ++ cmd_actions c r st0 ++ finish_actions c ++ deps_actions c r st0) in *.
+  assert (Erun : run_actions c r st0 = Pre ++ log_actions c r st0).
+  { unfold run_actions, Pre. now rewrite <- !app_assoc. }
   rewrite Erun, firstn_app_ge by assumption.
-  set (X := firstn (k - length AB) R).
-  assert (HXf : existsb t_file X = false).
-  { apply existsb_firstn_false. unfold R. rewrite !existsb_app.
-    rewrite finish_no, deps_actions_no by reflexivity.
-    unfold log_actions. now rewrite log_appends_no by reflexivity. }
-  assert (HXd : existsb t_dlog X = false).
-  { unfold X, R. rewrite !existsb_firstn_app.
-    rewrite (existsb_firstn_false _ (finish_actions c)) by (apply finish_no; reflexivity).
-    rewrite (existsb_firstn_false _ (log_actions c r st0)) by (apply log_appends_no; reflexivity).
-    replace (k - length AB - length (finish_actions c) - length (log_actions c r st0))%nat with 0%nat.
-    - reflexivity.
-    - unfold AB in *. rewrite !app_length in Hk2. rewrite !app_length. lia. }
-  set (st := apply_all st0 (AB ++ X)).
-  assert (Hfiles : map o_file (p_outs st) = map o_file (after_cmd c r st0)).
-  { unfold st. rewrite p_outs_apply_all, fold_left_app, file_kept by assumption.
-    unfold AB. rewrite fold_left_app.
-    rewrite (outs_untouched (start_actions c r)) by (apply start_no; reflexivity).
-    now rewrite cmd_actions_outs. }
-  assert (Hdlog : p_dlog st = p_dlog st0).
-  { unfold st. rewrite p_dlog_apply_all, fold_left_app, (dlog_untouched X) by assumption.
-    unfold AB. rewrite fold_left_app.
-    rewrite (dlog_untouched (start_actions c r)) by (apply start_no; reflexivity).
-    now rewrite (dlog_untouched (cmd_actions c r st0)) by (apply cmd_actions_no; reflexivity). }
-  assert (Hld : load_deps c st = LdFail).
-  { unfold load_deps. pose proof (after_cmd_nonempty c r st0 Hne) as Hac.
-    unfold deps_stale_after in Hst. rewrite Hdlog.
-    destruct (after_cmd c r st0) as [|a rest]; [congruence|].
-    destruct (p_outs st) as [|o' l']; [discriminate|]. cbn [map] in Hfiles.
-    injection Hfiles as Hf _.
-    assert (Hs : stat o' = stat a) by (unfold stat; now rewrite Hf).
-    unfold uses_depslog in Hu.
-    destruct (p_dlog st0) as [[dm d]|].
-    - assert (Hg : Z.gtb (stat o') dm = true) by (destruct (Z.gtb_spec (stat o') dm); [reflexivity|lia]).
-      destruct (c_deps c); try discriminate; now rewrite Hg.
-    - destruct (c_deps c); try discriminate; reflexivity. }
-  unfold next_run_dirty. fold st.
-  destruct (any_missing (i_explicit ins)); [reflexivity|].
-  destruct (existsb _ (p_outs st)); [reflexivity|]. now rewrite Hld.
+  set (X := firstn (k - length Pre) (log_actions c r st0)).
+  assert (HL : forall f, (forall i h m, f (ALogAppend i h m) = false) ->
+                         existsb f X = false /\ existsb f (log_actions c r st0) = false).
+  { intros f Hf. split; [apply existsb_firstn_false|]; now apply log_appends_no. }
+  destruct (HL t_dlog (fun _ _ _ => eq_refl)) as [Hd1 Hd2].
+  destruct (HL t_depfile (fun _ _ _ => eq_refl)) as [Hf1 Hf2].
+  destruct (HL t_file (fun _ _ _ => eq_refl)) as [Ho1 Ho2].
+  rewrite !p_dlog_apply_all, !p_depfile_apply_all, !p_outs_apply_all, !fold_left_app.
+  rewrite (dlog_untouched X), (dlog_untouched (log_actions c r st0)) by assumption.
+  rewrite (depfile_untouched X), (depfile_untouched (log_actions c r st0)) by assumption.
+  rewrite (file_kept X), (file_kept (log_actions c r st0)) by assumption.
+  repeat split; reflexivity.
+Qed.
+
+(* a log line of this run is durable => the crash point is past all deps records *)
+Lemma log_line_after_deps c r st0 i k :
+  existsb (is_log i) (firstn k (run_actions c r st0)) = true -> (pre_len c r st0 + i < k)%nat.
+Proof.
+  intros H. destruct (Nat.ltb_spec (pre_len c r st0 + i) k) as [Hlt|Hge]; [exact Hlt|].
+  rewrite no_log_in_prefix in H by assumption. discriminate.
+Qed.
+
+(* THE POSITIVE THEOREM OF THE NEW ORDER.  If a crashed run leaves the statement clean although the
+   entry of some output was stale before it (so the verdict does rest on this run), then what the
+   run learned is on disk: the deps record is the one this run reported, the depfile and the output
+   files are the final ones. *)
+Theorem clean_implies_deps_recorded : forall c r ins st0 i o k torn,
+  nth_error (p_outs st0) i = Some o ->
+  log_stale c (mri_of (i_explicit ins) None) o = true ->
+  let st := apply_all st0 (crash (run_actions c r st0) k torn) in
+  next_run_dirty c ins st = false ->
+  p_dlog st = (if uses_depslog c
+               then match after_cmd c r st0 with a :: _ => Some (stat a, r_deps r) | [] => p_dlog st0 end
+               else p_dlog st0)
+  /\ p_depfile st = p_depfile (apply_all st0 (run_actions c r st0))
+  /\ map o_file (p_outs st) = map o_file (after_cmd c r st0).
+Proof.
+  intros c r ins st0 i o k torn Hn Hs st Hc.
+  assert (Hk : (pre_len c r st0 <= k)%nat).
+  { destruct (Nat.leb_spec k (pre_len c r st0 + i)) as [Hle|Hgt]; [|lia].
+    unfold st in Hc. rewrite (prefix_redone c r ins st0 i o k torn Hn Hs Hle) in Hc. discriminate. }
+  destruct (deps_before_log_commit c r st0 k torn Hk) as [H1 [H2 H3]]. fold st in H1, H2, H3.
+  rewrite H1, H2, H3, final_dlog, final_outs, map_map. repeat split; reflexivity.
 Qed.
 
 (* ================================================================== C07_interrupt_cleanup *)
@@ -1030,39 +1025,59 @@ Example order_matters_log_first :
   map o_file (p_outs (apply_all st0 (firstn 2 (run_actions_log_first c r st0)))) = [Some (5, 1%N)].
 Proof. vm_compute. repeat split; try reflexivity; lia. Qed.
 
-(* (2) deps record (with the output's NEW mtime) BEFORE the log lines: the deps log was lost, the
-   build log is valid.  Code order: dirty until the deps record, the last action, is durable.
-   Swapped: clean before the log line is written, i.e. [prefix_redone_deps] fails. *)
-Example order_matters_deps_first :
+(* (2) the order of the code BEFORE the fix (log lines, then deps records): restat + deps=gcc,
+   a.c edited (tick 8) and now also including header 9, object reproduced identically and left alone.
+   Code order: dirty after EVERY strict prefix (torn or not), so the new deps [7; 9] are durable
+   before anything is trusted.  Old order: after [lock; depfile; rm depfile; log line] the statement
+   is clean with the old deps record [7] -- header 9 is recorded nowhere. *)
+Example order_matters_old_order_loses_deps :
+  let c := mkCfg 77 true false DGcc false in
+  let ins := mkIn [8] (fun _ => 2) in
+  let st0 := mkP [mkO (Some (5, 100%N)) (Some (77%N, 5))] (Some (5, [7%nat])) None false false in
+  let r := mkRun 10 [(100%N, 11)] [7%nat; 9%nat] 0 in
+  next_run_dirty c ins st0 = true /\
+  dirty_upto c ins st0 (run_actions c r st0) (length (run_actions c r st0)) = true /\
+  p_dlog (apply_all st0 (run_actions c r st0)) = Some (5, [7%nat; 9%nat]) /\
+  (4 < length (run_actions_old_order c r st0))%nat /\
+  next_run_dirty c ins (apply_all st0 (firstn 4 (run_actions_old_order c r st0))) = false /\
+  p_dlog (apply_all st0 (firstn 4 (run_actions_old_order c r st0))) = Some (5, [7%nat]).
+Proof. vm_compute. repeat split; try reflexivity; lia. Qed.
+
+(* The order the code uses now has a benign counterpart of the literal counterexample above: deps
+   log lost, build log valid -- the statement is clean as soon as the deps record is rewritten, before
+   the log lines; the verdict rests on the old valid entries ([prefix_trust_is_old]) and on deps this
+   run did report. *)
+Example deps_first_benign :
   let c := mkCfg 77 false false DGcc false in
   let ins := mkIn [3] (fun _ => 2) in
   let st0 := mkP [mkO (Some (5, 100%N)) (Some (77%N, 5))] None None false false in
   let r := mkRun 10 [(100%N, 11)] [7%nat] 0 in
-  next_run_dirty c ins st0 = true /\
-  dirty_upto c ins st0 (run_actions c r st0) (length (run_actions c r st0)) = true /\
-  (5 < length (run_actions_deps_first c r st0))%nat /\
-  next_run_dirty c ins (apply_all st0 (firstn 5 (run_actions_deps_first c r st0))) = false.
+  next_run_dirty c ins st0 = true /\ (5 < length (run_actions c r st0))%nat /\
+  next_run_dirty c ins (apply_all st0 (firstn 5 (run_actions c r st0))) = false /\
+  p_dlog (apply_all st0 (firstn 5 (run_actions c r st0))) = Some (11, [7%nat]).
 Proof. vm_compute. repeat split; try reflexivity; lia. Qed.
 
-(* ================================================================== FINDING *)
+(* ================================================================== FINDING (fixed in the code; about the OLD order) *)
 (* restat + deps=gcc: a.c was edited (tick 8) and now includes header 9 as well; the command
-   reproduces the same a.o, so it leaves it alone (restat).  FinishCommand has removed the depfile and
-   written the build-log line (hash, start tick) when the process dies BEFORE RecordDeps.  The next
-   run finds the statement clean with the OLD deps record [7]: the discovered input 9 is recorded
-   nowhere (depfile removed, deps record not written), and a later edit of header 9 is never seen.
-   [prefix_redone_deps] does not apply: the old deps record is not older than the untouched output. *)
-Example restat_deps_lost_refuted :
+   reproduces the same a.o, so it leaves it alone (restat).  With the old order FinishCommand had
+   removed the depfile and written the build-log line (hash, start tick) when the process died BEFORE
+   RecordDeps.  The next run found the statement clean with the OLD deps record [7]: the discovered
+   input 9 was recorded nowhere (depfile removed, deps record not written), and a later edit of
+   header 9 was never seen.  This is why FinishCommand now records the deps BEFORE the build-log
+   lines; under [run_actions] the same witness is dirty at every crash point
+   ([order_matters_old_order_loses_deps], [clean_implies_deps_recorded]). *)
+Example restat_deps_lost_old_order_refuted :
   exists c r ins st0 k,
     forallb (log_stale c (mri_of (i_explicit ins) None)) (p_outs st0) = true /\
     run_ok r st0 /\ inputs_old ins r /\
-    (k < length (run_actions c r st0))%nat /\
-    let st := apply_all st0 (firstn k (run_actions c r st0)) in
+    (k < length (run_actions_old_order c r st0))%nat /\
+    let st := apply_all st0 (firstn k (run_actions_old_order c r st0)) in
     next_run_dirty c ins st = false /\
     p_dlog st = Some (5, [7%nat]) /\ p_depfile st = None /\ r_deps r = [7%nat; 9%nat] /\
     (* header 9 edited later: still clean after the crash, dirty after the complete run *)
     let ins' := mkIn (i_explicit ins) (fun h => if Nat.eqb h 9 then 50 else i_hdr ins h) in
     next_run_dirty c ins' st = false /\
-    next_run_dirty c ins' (apply_all st0 (run_actions c r st0)) = true.
+    next_run_dirty c ins' (apply_all st0 (run_actions_old_order c r st0)) = true.
 Proof.
   exists (mkCfg 77 true false DGcc false), (mkRun 10 [(100%N, 11)] [7%nat; 9%nat] 0),
          (mkIn [8] (fun _ => 2)),
@@ -1080,7 +1095,7 @@ Example ex_hyps :
   next_run_dirty ex_cfg ex_ins ex_st0 = true /\
   forallb (log_stale ex_cfg (mri_of (i_explicit ex_ins) None)) (p_outs ex_st0) = true /\
   p_outs ex_st0 <> [] /\ run_ok ex_run ex_st0 /\ inputs_old ex_ins ex_run /\
-  uses_depslog ex_cfg = true /\ deps_stale_after ex_cfg ex_run ex_st0 /\
+  uses_depslog ex_cfg = true /\
   Forall (fun w => r_start ex_run < snd w) (r_writes ex_run) /\
   Forall (fun o0 => stat o0 <= r_start ex_run) (p_outs ex_st0).
 Proof.
@@ -1088,16 +1103,15 @@ Proof.
   split; [discriminate|]. split.
   { unfold run_ok. cbn. repeat split; try lia. repeat constructor; cbn; lia. }
   split. { unfold inputs_old. cbn. split; repeat constructor; lia. }
-  split; [reflexivity|]. split; [exact I|]. split; repeat constructor; cbn; lia.
+  split; [reflexivity|]. split; repeat constructor; cbn; lia.
 Qed.
 
-(* every crash point of the concrete statement up to the deps record of outputs_[0] (torn or not)
-   is dirty; the complete run is clean -- and so is the run that lacks only the deps record of
-   outputs_[1], which no scan ever consults (LoadDepsFromLog reads outputs_[0] only). *)
+(* every strict prefix of the concrete statement's 11 actions (torn or not) is dirty, the
+   complete run is clean *)
 Example ex_all_crash_points :
   length (run_actions ex_cfg ex_run ex_st0) = 11%nat /\
-  dirty_upto ex_cfg ex_ins ex_st0 (run_actions ex_cfg ex_run ex_st0) 10 = true /\
-  next_run_dirty ex_cfg ex_ins (apply_all ex_st0 (firstn 10 (run_actions ex_cfg ex_run ex_st0))) = false /\
+  commit_len ex_cfg ex_run ex_st0 = 11%nat /\ pre_len ex_cfg ex_run ex_st0 = 9%nat /\
+  dirty_upto ex_cfg ex_ins ex_st0 (run_actions ex_cfg ex_run ex_st0) 11 = true /\
   next_run_dirty ex_cfg ex_ins (apply_all ex_st0 (run_actions ex_cfg ex_run ex_st0)) = false.
 Proof. vm_compute. repeat split; reflexivity. Qed.
 
@@ -1113,66 +1127,11 @@ Example ex_interrupt :
 Proof. vm_compute. split; reflexivity. Qed.
 
 (* ================================================================== the commit point *)
-(* The last action that matters: the deps record of outputs_[0] for deps=gcc/msvc statements, the
-   last build-log line otherwise. *)
-Definition commit_len (c : cfg) (r : run) (st0 : pstate) : nat :=
-  if uses_depslog c then S (logs_done_len c r st0) else logs_done_len c r st0.
-
-Theorem prefix_redone_commit : forall c r ins st0 k torn,
-  p_outs st0 <> [] ->
-  forallb (log_stale c (mri_of (i_explicit ins) None)) (p_outs st0) = true ->
-  (uses_depslog c = true -> deps_stale_after c r st0) ->
-  (k < commit_len c r st0)%nat ->
-  next_run_dirty c ins (apply_all st0 (crash (run_actions c r st0) k torn)) = true.
-Proof.
-  intros c r ins st0 k torn Hne Hall Hdeps Hk. unfold commit_len in Hk.
-  destruct (Nat.ltb_spec k (logs_done_len c r st0)) as [Hlt|Hge].
-  - now apply prefix_redone_all.
-  - destruct (uses_depslog c) eqn:Hu; [|lia].
-    apply prefix_redone_deps; auto. split; [|lia].
-    unfold cmd_done_len. unfold logs_done_len in Hge. rewrite !app_length in *. lia.
-Qed.
-
-Lemma noop_actions acts : Forall (fun a => forall st, apply st a = st) acts ->
-  forall st, apply_all st acts = st.
-Proof.
-  induction 1 as [|a acts Ha Hacts IH]; intros st; [reflexivity|].
-  cbn [apply_all fold_left]. rewrite Ha. apply IH.
-Qed.
-
-Lemma deps_appends_tail_noop d : forall after i, (0 < i)%nat ->
-  Forall (fun a => forall st, apply st a = st) (deps_appends i after d).
-Proof.
-  induction after as [|a after IH]; intros i Hi; [constructor|].
-  cbn [deps_appends]. constructor; [|apply IH; lia].
-  intros st. cbn [apply]. destruct (Nat.eqb_spec i 0); [lia|reflexivity].
-Qed.
-
-(* ... and it is exact: from the commit point on, the persistent state is the final one *)
+(* [commit_len] = length of the action list: the last build-log line is the last action, so
+   [prefix_redone_all] covers every strict prefix and nothing is left after the commit point. *)
 Theorem commit_exact : forall c r st0 k, (commit_len c r st0 <= k)%nat ->
   apply_all st0 (firstn k (run_actions c r st0)) = apply_all st0 (run_actions c r st0).
-Proof.
-  intros c r st0 k Hk. unfold commit_len, logs_done_len in Hk.
-  set (Pre := start_actions c r ++ cmd_actions c r st0 ++ finish_actions c ++ log_actions c r st0) in *.
-  assert (Erun : run_actions c r st0 = Pre ++ deps_actions c r st0).
-  { unfold run_actions, Pre. now rewrite <- !app_assoc. }
-  rewrite Erun. unfold deps_actions in *. destruct (uses_depslog c).
-  - rewrite firstn_app_ge by lia. rewrite !apply_all_app.
-    destruct (after_cmd c r st0) as [|a rest] eqn:Ea; unfold after_cmd in Ea; rewrite Ea.
-    + cbn [deps_appends]. now rewrite firstn_nil.
-    + cbn [deps_appends]. destruct (k - length Pre)%nat as [|k'] eqn:Ek; [lia|].
-      cbn [firstn apply_all fold_left].
-      fold (apply_all (apply (apply_all st0 Pre) (ADepsAppend 0 (stat a) (r_deps r)))
-                      (firstn k' (deps_appends 1 rest (r_deps r)))).
-      fold (apply_all (apply (apply_all st0 Pre) (ADepsAppend 0 (stat a) (r_deps r)))
-                      (deps_appends 1 rest (r_deps r))).
-      rewrite (noop_actions (firstn k' (deps_appends 1 rest (r_deps r))))
-        by (apply Forall_firstn, deps_appends_tail_noop; lia).
-      rewrite (noop_actions (deps_appends 1 rest (r_deps r)))
-        by (apply deps_appends_tail_noop; lia).
-      reflexivity.
-  - rewrite app_nil_r. now rewrite firstn_all2 by lia.
-Qed.
+Proof. intros c r st0 k Hk. unfold commit_len in Hk. now rewrite firstn_all2. Qed.
 
 (* ================================================================== tie to the validated scan model *)
 (* The per-output tests of this file ARE the ones of Engine/ScanDefs.v (validated against the C++ by
